@@ -214,7 +214,16 @@ func saString(sa unix.Sockaddr) string {
 	case *unix.SockaddrInet4:
 		return net.JoinHostPort(net.IP(a.Addr[:]).String(), strconv.Itoa(a.Port))
 	case *unix.SockaddrInet6:
-		return net.JoinHostPort(net.IP(a.Addr[:]).String(), strconv.Itoa(a.Port))
+		host := net.IP(a.Addr[:]).String()
+		if a.ZoneId != 0 {
+			// a scoped address: the zone is part of it (named after the interface, as package net prints it)
+			if ifi, err := net.InterfaceByIndex(int(a.ZoneId)); err == nil {
+				host += "%" + ifi.Name
+			} else {
+				host += "%" + strconv.Itoa(int(a.ZoneId))
+			}
+		}
+		return net.JoinHostPort(host, strconv.Itoa(a.Port))
 	case *unix.SockaddrUnix:
 		if a.Name == "" {
 			return "unix:"
